@@ -126,7 +126,7 @@ Definition LK (s : state) : Prop :=
 
 Lemma lk_programs : forall k, insafe false (prog_of k) = true /\ owes (prog_of k) = false.
 Proof.
-  destruct k as [|n|n|n|n|n|m|j|evs| | |b]; try (split; reflexivity).
+  destruct k as [|n|n|n|n|n|m|j|evs| | |b|]; try (split; reflexivity).
   - cbn [prog_of]. induction evs as [|e evs IH]; [split; reflexivity|exact IH].
 Qed.
 
@@ -215,7 +215,7 @@ Definition NS (s : state) : Prop :=
 
 Lemma quiet_programs : forall k, role_of k <> RServe -> quiet_in (prog_of k) = true.
 Proof.
-  destruct k as [|n|n|n|n|n|m|j|evs| | |b]; intro H; try reflexivity.
+  destruct k as [|n|n|n|n|n|m|j|evs| | |b|]; intro H; try reflexivity.
   - clear H. cbn [prog_of]. induction evs as [|e evs IH]; [reflexivity|exact IH].
   - exfalso. apply H. reflexivity.
 Qed.
